@@ -260,6 +260,40 @@ Fixpoint bucket_renew_shares (b : bucket) (order : list N) (secret : list N) (t 
       end
   end.
 
+(* StorageServer.allocate_buckets, the part that concerns shares the server already holds:
+   EVERY held share (not only the ones the request names) is opened as an immutable ShareFile,
+   then the caller's lease (owner_num as given, expiry now + 31 days) is added or renewed on
+   every one of them, in listing order.  New shares are written through BucketWriters and are
+   not part of this model. *)
+Fixpoint bucket_open_all (b : bucket) (order : list N) : option err :=
+  match order with
+  | [] => None
+  | n :: r => match blookup b n with
+              | None => bucket_open_all b r
+              | Some f => match imm_open f with Err e => Some e | Ok _ => bucket_open_all b r end
+              end
+  end.
+
+Fixpoint bucket_alloc_leases (b : bucket) (order : list N) (avail : N) (li : lease) : bucket * option err :=
+  match order with
+  | [] => (b, None)
+  | n :: r =>
+      match blookup b n with
+      | None => bucket_alloc_leases b r avail li
+      | Some f =>
+          match immfile_add_or_renew H f avail li with
+          | Raised f' e => (bset b n f', Some e)
+          | Done f' => bucket_alloc_leases (bset b n f') r avail li
+          end
+      end
+  end.
+
+Definition bucket_allocate (b : bucket) (order : list N) (avail : N) (li : lease) : bucket * option err :=
+  match bucket_open_all b order with
+  | Some e => (b, Some e)
+  | None => bucket_alloc_leases b order avail li
+  end.
+
 (* IndexError("no such lease to renew") when there is no share file at all *)
 Definition bucket_renew_lease (b : bucket) (order : list N) (secret : list N) (now : N) : bucket * option err :=
   match b with
@@ -273,6 +307,7 @@ Inductive sop :=
 | SReadv (shares : list N) (rv : readvec)
 | SAddLease (rs cs : list N) (order : list N)
 | SRenew (rs : list N) (order : list N)
+| SAlloc (owner : N) (rs cs : list N) (order : list N)
 | STick (dt : N).
 
 Inductive sobs :=
@@ -290,6 +325,10 @@ Definition sstep (sv : server) (st : bucket * N) (o : sop) : (bucket * N) * sobs
       let '(b', e) := bucket_add_lease b order (s_avail sv) (make_lease_info (s_nodeid sv) rs cs now) in
       ((b', now), OLease e)
   | SRenew rs order => let '(b', e) := bucket_renew_lease b order rs now in ((b', now), OLease e)
+  | SAlloc owner rs cs order =>
+      let '(b', e) := bucket_allocate b order (s_avail sv)
+                        (mkLease owner rs cs (now + DEFAULT_RENEWAL_TIME) (s_nodeid sv)) in
+      ((b', now), OLease e)
   | STick dt => ((b, now + dt), OTick)
   end.
 
